@@ -292,7 +292,14 @@ func c01NilSkip(c *Ctx, leaf *ssa.Function) {
 		n++
 		g := pb.pathCond(leaf.Blocks[0], ci.Block())
 		for _, kk := range []int64{kPtr, kMap, kSlice, kInterface} {
-			_, counter := forAll(g, map[string][]int64{kindAtom: {kk}}, func(e env, fv bool) bool { return !(e.B[nilAtom] && fv) })
+			fbN, fiN := map[string]bool{}, map[string]bool{}
+			atomsOf(g, fbN, fiN)
+			_, counter := forAll(g, map[string][]int64{kindAtom: {kk}}, func(e env, fv bool) bool {
+				if !fbN[nilAtom] {
+					return !fv // the path never tests IsNil: it must be unreachable for this kind
+				}
+				return !(e.B[nilAtom] && fv)
+			})
 			if counter != "" {
 				bad = true
 				c.bad("nil-skip", name+"#mutation", ci.Pos(), "%s is reachable with a nil overlay of kind %s (an unset value would overwrite lower layers): %s", nme, kindNames[kk], counter)
